@@ -484,3 +484,33 @@ pub fn nesting_inputs(n: usize) -> Vec<(Vec<u8>, &'static str)> {
     v.push((f, "mpart-extension-open"));
     v
 }
+
+/// complete, well-formed FETCH responses whose BODY / BODYSTRUCTURE nests `d` levels, for every way of
+/// nesting: message/rfc822 in message/rfc822 (a chain of forwards), multipart in multipart, the two
+/// alternating (forwards of multipart messages), and a chain with siblings at every level.  Used around
+/// the parser's nesting budget: what the model reads, the implementation has to read.
+pub fn nesting_boundary_inputs(d: usize) -> Vec<(Vec<u8>, String)> {
+    const LEAF: &str = "(\"TEXT\" \"PLAIN\" NIL NIL NIL \"7BIT\" 12 1)";
+    let msg = |inner: &str| -> String {
+        format!("(\"MESSAGE\" \"RFC822\" NIL NIL NIL \"7BIT\" 345 (NIL \"Fwd\" NIL NIL NIL NIL NIL NIL NIL NIL) {} 7)", inner)
+    };
+    let multi = |inner: &str| -> String { format!("({} \"MIXED\")", inner) };
+    let multi_sib = |inner: &str| -> String { format!("({}{} \"MIXED\")", LEAF, inner) };
+    let mut v = vec![];
+    for (kind, f) in [("message", 0usize), ("multipart", 1), ("message-over-multipart", 2), ("multipart-over-message", 3), ("multipart-with-sibling", 4)] {
+        let mut body = LEAF.to_string();
+        for lvl in 0..d {
+            body = match f {
+                0 => msg(&body),
+                1 => multi(&body),
+                2 => if (d - lvl) % 2 == 1 { msg(&body) } else { multi(&body) },
+                3 => if (d - lvl) % 2 == 1 { multi(&body) } else { msg(&body) },
+                _ => multi_sib(&body),
+            };
+        }
+        for item in ["BODY", "BODYSTRUCTURE"] {
+            v.push((format!("* 7 FETCH ({} {})\r\n", item, body).into_bytes(), format!("nesting:{}:{}:{}", kind, item, d)));
+        }
+    }
+    v
+}
